@@ -78,6 +78,9 @@ class Method(Variable):  # i.e. TypeBound procedure
             link_msg, link_docs = self.link_obj.get_hover(
                 long=True, drop_arg=self.drop_arg
             )
+            # The linked object (e.g. a generic interface) has no hover text of its own
+            if link_msg is None:
+                return f"{self.get_desc()} {self.name}", docs
             # Replace the name of the linked object with the name of this object
             hover_str = link_msg.replace(self.link_obj.name, self.name, 1)
             if isinstance(link_docs, str):
